@@ -19,6 +19,7 @@ From Martian.C07 Require Import Gen_Shutdown.
 Lemma source_shape_tie :
   close_signals_before_lock = true /\ close_waits_under_lock = true /\
   handler_adds_under_lock = true /\ handler_registers_in_goroutine = true /\
+  serve_closes_listener_on_return = true /\
   handler_closes_then_done = true /\ handler_early_exit_after_register = true /\
   reader_select_sees_closing = true /\ reader_reads_only_behind_select = true /\
   decision_after_resmod = true /\ decision_checks_closing = true /\
